@@ -2,6 +2,8 @@ SPECIFICATION Spec
 CONSTANTS
   Theme = "fd"
   MaxFd = 5
+  MaxLen = 6
+  MaxPipe = 2
   MaxH = 1
 VIEW view
 CONSTRAINT Bounded
